@@ -259,6 +259,24 @@ CLAIMED["C16"] = dict(
     design="6/C16",
 )
 
+CLAIMED["C17"] = dict(
+    text="Lean theorems (Props/C17.lean) on the lexer+parser model of the match grammar: c17_tokens — every list of well-shaped components "
+         "(every kind, any names, any nesting depth), with comments anywhere between them, parses to exactly those components (kinds, "
+         "names, operators, argument order, literal values); c17_unique — a token sequence has one reading; c17_layout — the token "
+         "sequence read from the text is the same for every admissible layout (any blanks/tabs/newlines before any token, none only "
+         "where the next character cannot run on into the previous token); c17_roundtrip / c17_layout_insensitive — text in any layout, "
+         "with or without comments, gives the same tree. Tie: suite `parse` builds trees from the grammar over every function name the "
+         "factory answers for, renders three layouts each, and compares the real Lark parse + transformer with the model and with the "
+         "source tree (zero _ambig nodes demanded); mutated texts are compared model-vs-code; whole runs of re-laid-out programs (and with "
+         "an outer comment without mode keys) must give identical lines, variables, printouts, errors and verdict.",
+    note="That Lark's Earley parser + dynamic lexer compute what the deterministic model computes is observed on every case, not proved; "
+         "name/qualifier splitting and literal conversion (int/float) are judged by the oracle against the source, not part of the "
+         "theorems; numbers with exponents and names that start with a dot are outside the theorems' class (compared model-vs-code); "
+         "the outer-comment clause rests on C15's c15_extract_no_comment plus whole-run comparison.",
+    technique="Lean 4 proof (well-founded mutual induction over trees; scanner lemmas per token kind) + model/implementation correspondence + oracle",
+    design="AB.4.1",
+)
+
 NOT_YET = "check not built yet in this revision (planned: see DESIGN.md section 6); not claimed until its theorem and correspondence suite exist"
 
 
